@@ -127,24 +127,35 @@ def blobLoop (thr : Nat) : List Element → Nat → BlobLoopState → Res BlobLo
     let cursor := cursor + e.numShares
     blobLoop thr rest (i + 1) { cursor, nonReservedStart, endOfLastBlob := cursor, pfbs, shares }
 
-/-- `Export`: the new builder state (sorted blobs, recorded indexes, done flag) and the square. -/
-def exportSquare (b : Builder) : Res (Builder × List Bytes) :=
-  if b.isEmpty then do
+/-- the computation of `Export` as a function of exactly the builder fields it reads:
+    `none` = the builder is empty (the 1x1 tail-padding square, no state change), otherwise the
+    sorted blobs and the wrapped PFBs with their recorded indexes, and the square. -/
+def exportCore (thr : Nat) (currentSize : Int) (txs : List Bytes) (pfbs : List Proto.IndexWrapper)
+    (blobs : List Element) (txSize pfbSize : Nat) :
+    Res (Option (List Element × List Proto.IndexWrapper) × List Bytes) :=
+  if txSize == 0 && pfbSize == 0 then do
     let sq ← emptySquare
-    .ok (b, sq)
+    .ok (none, sq)
   else do
-    let ss := blobMinSquareSize b.currentSize.toNat
-    let blobs := b.blobs.mergeSort elemLe
+    let ss := blobMinSquareSize currentSize.toNat
+    let blobs := blobs.mergeSort elemLe
     let txW0 ← CompactSplitter.new txNamespace 0
-    let txW ← b.txs.foldlM (fun w tx => w.writeTx tx) txW0
-    let start := b.txCounter.size + b.pfbCounter.size
-    let st ← blobLoop b.thr blobs 0
-      { cursor := start, nonReservedStart := start, endOfLastBlob := start, pfbs := b.pfbs, shares := [] }
+    let txW ← txs.foldlM (fun w tx => w.writeTx tx) txW0
+    let start := txSize + pfbSize
+    let st ← blobLoop thr blobs 0
+      { cursor := start, nonReservedStart := start, endOfLastBlob := start, pfbs := pfbs, shares := [] }
     let pfbW0 ← CompactSplitter.new payForBlobNamespace 0
     let pfbW ← st.pfbs.foldlM (fun w iw => w.writeTx iw.marshal) pfbW0
-    if b.pfbCounter.size < pfbW.count then throw .err
+    if pfbSize < pfbW.count then throw .err
     let sq ← writeSquare txW pfbW st.shares st.nonReservedStart ss
-    .ok ({ b with blobs, pfbs := st.pfbs, done := true }, sq)
+    .ok (some (blobs, st.pfbs), sq)
+
+/-- `Export`: the new builder state (sorted blobs, recorded indexes, done flag) and the square. -/
+def exportSquare (b : Builder) : Res (Builder × List Bytes) := do
+  let (upd, sq) ← exportCore b.thr b.currentSize b.txs b.pfbs b.blobs b.txCounter.size b.pfbCounter.size
+  match upd with
+  | none => .ok (b, sq)
+  | some (blobs, pfbs) => .ok ({ b with blobs, pfbs, done := true }, sq)
 
 /-- export only when not done (the `if !b.done { b.Export() }` idiom); keeps the state. -/
 def ensureExported (b : Builder) : Res Builder :=
